@@ -148,7 +148,7 @@ fn graph_case(rng: &mut Rng, five: bool) -> (InstSpec, Vec<(u64, F)>) {
     let mut inst = gen_instance(rng, &GenOpts { max_vars: 6, max_cons: 2, max_removed: 1, max_degree: 2, deps: false, hints: false });
     while inst.vars.len() < if five { 6 } else { 2 } {
         let id = 200 + inst.vars.len() as u64;
-        inst.vars.push(VarSpec { id, kind: 3, bound: None, name: None, substituted: None });
+        inst.vars.push(VarSpec { id, kind: 3, bound: None, name: None, substituted: None, meta: None });
     }
     let ids: Vec<u64> = inst.vars.iter().map(|v| v.id).collect();
     let shape = rng.below(5);
@@ -163,7 +163,7 @@ fn graph_case(rng: &mut Rng, five: bool) -> (InstSpec, Vec<(u64, F)>) {
     }
     if shape == 4 {
         // 777 is a defined decision variable that is neither dependent nor given a value
-        inst.vars.push(VarSpec { id: 777, kind: 3, bound: None, name: None, substituted: None });
+        inst.vars.push(VarSpec { id: 777, kind: 3, bound: None, name: None, substituted: None, meta: None });
     }
     let dep_ids: BTreeSet<u64> = deps.iter().map(|d| d.0).collect();
     // objective and constraints must not use dependent variables (they are evaluated before the dependencies)
@@ -181,7 +181,7 @@ fn graph_case(rng: &mut Rng, five: bool) -> (InstSpec, Vec<(u64, F)>) {
     // variable (substituted_value) and it is not part of the state
     if !five && !deps.is_empty() && rng.chance(1, 4) {
         let val = F(rng.half(2, false));
-        inst.vars.push(VarSpec { id: 300, kind: 3, bound: None, name: None, substituted: Some(val) });
+        inst.vars.push(VarSpec { id: 300, kind: 3, bound: None, name: None, substituted: Some(val), meta: None });
         let k = rng.usize(deps.len());
         deps[k].1 = match deps[k].1.clone() {
             FuncSpec::Linear { mut terms, constant } => {
@@ -387,10 +387,25 @@ impl Prop for C04 {
                     }
                 }
                 for (ci, call) in calls.iter().enumerate() {
+                    let before = cur.clone();
                     match x.sut(|| cur.substitute(repl_map(call))) {
                         Err(p) => return x.violate("C04:panic", format!("Instance::substitute panicked: {p}")),
                         Ok(Err(e)) => return x.violate("C04:instance:substitute-fails", format!("call {ci}: {e:#}")),
                         Ok(Ok(())) => {}
+                    }
+                    for part_name in exact::untouched_diff(&before, &cur, true, false) {
+                        x.violate("C04:instance:untouched-part-changed", format!("call {ci}: substitute changed the instance's {part_name}"));
+                    }
+                    // constraints keep their identity and metadata
+                    for (b, a) in before.constraints.iter().zip(&cur.constraints) {
+                        let mut b2 = b.clone();
+                        b2.function = a.function.clone();
+                        if &b2 != a {
+                            x.violate("C04:instance:untouched-part-changed", format!("call {ci}: substitute changed constraint {} beyond its function", b.id));
+                        }
+                    }
+                    if before.constraints.len() != cur.constraints.len() || before.removed_constraints.len() != cur.removed_constraints.len() {
+                        x.violate("C04:instance:untouched-part-changed", format!("call {ci}: substitute changed the number of constraints"));
                     }
                     // no function of the instance mentions a replaced variable any more
                     let replaced: BTreeSet<u64> = calls[..=ci].iter().flatten().map(|c| c.0).collect();
